@@ -196,9 +196,12 @@ def run (fuel : Nat) (sc : Stmt) (st : St) (os : Outcomes) : Res :=
 
 /-! ## The static discipline
 
-A forward *must* analysis. An abstract state lists the fields that are certainly unchanged w.r.t. the
-state at entry (`clean`), the fields whose backup slot certainly holds the entry value (`valid`), and the
-flags whose value is certainly known. Joining two paths intersects. -/
+A forward *must* analysis, disjunctive: a set of abstract states describes the ways the concrete state may relate
+to the state at entry. One abstract state lists the fields that are certainly unchanged w.r.t. entry (`clean`),
+the fields whose backup slot / content copy certainly holds the entry value (`valid` / `cvalid`), the fields that
+certainly hold an object created after entry (`fresh`), and the local flags whose value is certainly known.
+Keeping the states of different paths apart (instead of intersecting them) keeps the correlation between a flag
+such as `wellformed` and what has been changed. -/
 
 structure Abs where
   clean : List Field            -- certainly holds its entry value
@@ -210,11 +213,6 @@ structure Abs where
   isro : Bool                   -- the object is certainly read-only (entry assumption of the T11.3 analysis)
   deriving Repr, DecidableEq, Inhabited
 
-def Abs.meet (a b : Abs) : Abs :=
-  ⟨a.clean.filter (· ∈ b.clean), a.valid.filter (· ∈ b.valid), a.cvalid.filter (· ∈ b.cvalid),
-   a.fresh.filter (· ∈ b.fresh),
-   a.known.filter (· ∈ b.known), a.nro && b.nro, a.isro && b.isro⟩
-
 /-- `a ⊑ b`: everything `a` claims, `b` claims too (so `a` is the weaker, safer description) -/
 def Abs.le (a b : Abs) : Bool :=
   a.clean.all (· ∈ b.clean) && a.valid.all (· ∈ b.valid) && a.cvalid.all (· ∈ b.cvalid) &&
@@ -223,24 +221,49 @@ def Abs.le (a b : Abs) : Bool :=
 
 def Abs.bot : Abs := ⟨[], [], [], [], [], false, false⟩
 
-def omeet : Option Abs → Option Abs → Option Abs
-  | none, b => b
-  | a, none => a
-  | some a, some b => some (a.meet b)
+abbrev AbsSet := List Abs
 
-/-- abstract result: for every way of ending, what is certainly true then (`none` = cannot end this way) -/
+def AbsSet.union (a b : AbsSet) : AbsSet := a ++ b.filter (· ∉ a)
+
+/-- some member of `I` is a weaker description than `x` -/
+def AbsSet.covers (I : AbsSet) (x : Abs) : Bool := I.any (·.le x)
+
+def AbsSet.coversAll (I X : AbsSet) : Bool := X.all (I.covers ·)
+
+/-- abstract result: for every way of ending, the abstract states possible then (`[]` = cannot end this way) -/
 structure Post where
-  norm : Option Abs := none
-  ret : Option Abs := none
-  brk : Option Abs := none
-  cont : Option Abs := none
-  exc : Option Abs := none
-  roExc : Option Abs := none
+  norm : AbsSet := []
+  ret : AbsSet := []
+  brk : AbsSet := []
+  cont : AbsSet := []
+  exc : AbsSet := []
+  roExc : AbsSet := []
   deriving Repr, DecidableEq, Inhabited
 
 def Post.join (p q : Post) : Post :=
-  ⟨omeet p.norm q.norm, omeet p.ret q.ret, omeet p.brk q.brk, omeet p.cont q.cont, omeet p.exc q.exc,
-   omeet p.roExc q.roExc⟩
+  ⟨p.norm.union q.norm, p.ret.union q.ret, p.brk.union q.brk, p.cont.union q.cont, p.exc.union q.exc,
+   p.roExc.union q.roExc⟩
+
+/-- component of a post for a way of ending -/
+def Post.get (p : Post) : Exit → AbsSet
+  | .norm => p.norm | .ret => p.ret | .brk => p.brk | .cont => p.cont | .exc => p.exc | .roExc => p.roExc
+  | .stuck => []
+
+/-- add `o` to the component of `q` that belongs to the way of ending `k` -/
+def Post.put (q : Post) (k : Exit) (o : AbsSet) : Post :=
+  match k with
+  | .norm => { q with norm := q.norm.union o }
+  | .ret => { q with ret := q.ret.union o }
+  | .brk => { q with brk := q.brk.union o }
+  | .cont => { q with cont := q.cont.union o }
+  | .exc => { q with exc := q.exc.union o }
+  | .roExc => { q with roExc := q.roExc.union o }
+  | .stuck => q
+
+/-- continue with `f` from every state of `A` -/
+def bindAll (f : Abs → Post) : AbsSet → Post
+  | [] => {}
+  | a :: r => (f a).join (bindAll f r)
 
 def Abs.flagVal (a : Abs) (b : Flag) : Option Bool :=
   if (b, true) ∈ a.known then some true else if (b, false) ∈ a.known then some false else none
@@ -250,104 +273,82 @@ def Abs.dropFlag (a : Abs) (b : Flag) : Abs := { a with known := a.known.filter 
 def Abs.setFlag (a : Abs) (b : Flag) (v : Bool) : Abs :=
   { a with known := (b, v) :: (a.dropFlag b).known }
 
-/-- continue with `k` from the normal exit of `p`, keep all other exits of `p` -/
-def Post.bind (p : Post) (k : Abs → Post) : Post :=
-  match p.norm with
-  | none => p
-  | some a => Post.join { p with norm := none } (k a)
-
-/-- candidate loop invariant: iterate `n` times from `a` -/
-def loopInv (body : Abs → Post) (a : Abs) : Nat → Abs
-  | 0 => a
-  | n + 1 =>
-    let p := body a
-    let a1 := match omeet (some a) (omeet p.norm p.cont) with
-      | some x => x
-      | none => a
-    if a.le a1 then a else loopInv body a1 n
-
-def invStable (body : Abs → Post) (i : Abs) : Bool :=
-  let p := body i
-  (match p.norm with | none => true | some x => i.le x) &&
-  (match p.cont with | none => true | some x => i.le x)
-
-/-- add `o` to the component of `q` that belongs to the way of ending `k` -/
-def Post.put (q : Post) (k : Exit) (o : Option Abs) : Post :=
-  match k with
-  | .norm => { q with norm := omeet q.norm o }
-  | .ret => { q with ret := omeet q.ret o }
-  | .brk => { q with brk := omeet q.brk o }
-  | .cont => { q with cont := omeet q.cont o }
-  | .exc => { q with exc := omeet q.exc o }
-  | .roExc => { q with roExc := omeet q.roExc o }
-  | .stuck => q
-
-/-- `finally`: entered from the body's exit `k` in abstract state `o`; if the `finally` block ends normally
+/-- `finally`: entered from the body's exit `k` in the abstract states `A`; if the `finally` block ends normally
 the original way of ending `k` is resumed, otherwise the block's own way of ending wins (Python semantics) -/
-def finThru (pf : Abs → Post) (o : Option Abs) (k : Exit) : Post :=
-  match o with
-  | none => {}
-  | some x => let q := pf x; Post.put { q with norm := none } k q.norm
+def finThru (pf : Abs → Post) (k : Exit) : AbsSet → Post
+  | [] => {}
+  | x :: r => (let q := pf x; Post.put { q with norm := [] } k q.norm).join (finThru pf k r)
+
+/-- candidate loop invariant: add the states reached at the end of an iteration until nothing new appears -/
+def loopInv (body : Abs → Post) (I : AbsSet) : Nat → AbsSet
+  | 0 => I
+  | n + 1 =>
+    let p := bindAll body I
+    let new := (p.norm.union p.cont).filter fun x => !I.covers x
+    if new.isEmpty then I else loopInv body (I ++ new) n
+
+def invStable (body : Abs → Post) (I : AbsSet) : Bool :=
+  let p := bindAll body I
+  I.coversAll p.norm && I.coversAll p.cont
 
 def post (sc : Stmt) (a : Abs) : Post :=
   match sc with
-  | .skip => { norm := some a }
-  | .mark _ => { norm := some a }
-  | .assign f => { norm := some { a with clean := a.clean.filter (· ≠ f), fresh := f :: a.fresh } }
+  | .skip => { norm := [a] }
+  | .mark _ => { norm := [a] }
+  | .assign f => { norm := [{ a with clean := a.clean.filter (· ≠ f), fresh := f :: a.fresh }] }
   | .mutate f =>
-    { norm := some { a with clean := a.clean.filter (· ≠ f),
-                            valid := if f ∈ a.fresh then a.valid else a.valid.filter (· ≠ f),
-                            fresh := f :: a.fresh } }
+    { norm := [{ a with clean := a.clean.filter (· ≠ f),
+                        valid := if f ∈ a.fresh then a.valid else a.valid.filter (· ≠ f),
+                        fresh := f :: a.fresh }] }
   | .save f =>
-    { norm := some { a with valid := if f ∈ a.clean then f :: a.valid else a.valid.filter (· ≠ f) } }
+    { norm := [{ a with valid := if f ∈ a.clean then f :: a.valid else a.valid.filter (· ≠ f) }] }
   | .restore f =>
-    { norm := some { a with clean := if f ∈ a.valid then f :: a.clean else a.clean.filter (· ≠ f),
-                            fresh := a.fresh.filter (· ≠ f) } }
+    { norm := [{ a with clean := if f ∈ a.valid then f :: a.clean else a.clean.filter (· ≠ f),
+                        fresh := a.fresh.filter (· ≠ f) }] }
   | .saveC f =>
-    { norm := some { a with cvalid := if f ∈ a.clean then f :: a.cvalid else a.cvalid.filter (· ≠ f) } }
+    { norm := [{ a with cvalid := if f ∈ a.clean then f :: a.cvalid else a.cvalid.filter (· ≠ f) }] }
   | .restoreC f =>
-    { norm := some { a with clean := if f ∈ a.cvalid then f :: a.clean else a.clean.filter (· ≠ f),
-                            fresh := a.fresh.filter (· ≠ f) } }
+    { norm := [{ a with clean := if f ∈ a.cvalid then f :: a.clean else a.clean.filter (· ≠ f),
+                        fresh := a.fresh.filter (· ≠ f) }] }
   | .guard =>
-    if a.isro then { roExc := some a }
-    else if a.nro then { norm := some a } else { norm := some { a with nro := true }, roExc := some a }
-  | .raise => { exc := some a }
-  | .mayRaise => { norm := some a, exc := some a }
-  | .ret => { ret := some a }
-  | .brk => { brk := some a }
-  | .cont => { cont := some a }
-  | .setFlag b v => { norm := some (a.setFlag b v) }
-  | .havoc b => { norm := some (a.dropFlag b) }
+    if a.isro then { roExc := [a] }
+    else if a.nro then { norm := [a] } else { norm := [{ a with nro := true }], roExc := [a] }
+  | .raise => { exc := [a] }
+  | .mayRaise => { norm := [a], exc := [a] }
+  | .ret => { ret := [a] }
+  | .brk => { brk := [a] }
+  | .cont => { cont := [a] }
+  | .setFlag b v => { norm := [a.setFlag b v] }
+  | .havoc b => { norm := [a.dropFlag b] }
   | .ifFlag b t e =>
     match a.flagVal b with
     | some true => post t a
     | some false => post e a
-    | none => (post t a).join (post e a)
-  | .seq s t => (post s a).bind (post t)
+    | none => (post t (a.setFlag b true)).join (post e (a.setFlag b false))
+  | .seq s t =>
+    let p := post s a
+    Post.join { p with norm := [] } (bindAll (post t) p.norm)
   | .choice s t => (post s a).join (post t a)
   | .loop body els =>
-    let i0 := loopInv (post body) a 8
-    let i := if i0.le a && invStable (post body) i0 then i0 else Abs.bot
-    let p := post body i
+    let I0 := loopInv (post body) [a] 6
+    let I := if I0.covers a && invStable (post body) I0 then I0 else [Abs.bot]
+    let p := bindAll (post body) I
     -- the loop ends through `break` (normally, `else` skipped) or, from the invariant, by exhaustion: `else` runs
-    Post.join { norm := p.brk, ret := p.ret, exc := p.exc, roExc := p.roExc } (post els i)
+    Post.join { norm := p.brk, ret := p.ret, exc := p.exc, roExc := p.roExc } (bindAll (post els) I)
   | .tryCatch body h =>
     let p := post body a
-    let q := match omeet p.exc p.roExc with
-      | none => ({} : Post)
-      | some x => post h x
-    Post.join { p with exc := none, roExc := none } q
+    Post.join { p with exc := [], roExc := [] } (bindAll (post h) (p.exc.union p.roExc))
   | .tryFinally body fin =>
     let p := post body a
-    (finThru (post fin) p.norm .norm).join <|
-    (finThru (post fin) p.ret .ret).join <|
-    (finThru (post fin) p.brk .brk).join <|
-    (finThru (post fin) p.cont .cont).join <|
-    (finThru (post fin) p.exc .exc).join <|
-    (finThru (post fin) p.roExc .roExc)
+    (finThru (post fin) .norm p.norm).join <|
+    (finThru (post fin) .ret p.ret).join <|
+    (finThru (post fin) .brk p.brk).join <|
+    (finThru (post fin) .cont p.cont).join <|
+    (finThru (post fin) .exc p.exc).join <|
+    (finThru (post fin) .roExc p.roExc)
   | .scope body =>
     let p := post body a
-    { p with norm := omeet p.norm p.ret, ret := none }
+    { p with norm := p.norm.union p.ret, ret := [] }
 
 /-- A mutator script over the fields `fs`. -/
 structure Script where
@@ -364,15 +365,14 @@ def Abs.entryRO (fs : List Field) : Abs := ⟨fs, [], [], [], [], false, true⟩
 /-- every field of the object is certainly unchanged -/
 def Abs.allClean (fs : List Field) (a : Abs) : Bool := fs.all (· ∈ a.clean)
 
+def okClean (fs : List Field) (o : AbsSet) : Bool := o.all (·.allClean fs)
+
 /-- **The discipline**: on every path that ends with a DOM exception all fields are back at their entry
 values; the read-only rejection happens with all fields untouched. Decidable: it is a computation. -/
 def Disciplined (fs : List Field) (sc : Stmt) : Bool :=
   let p := post sc (Abs.entry fs)
-  (match p.exc with | none => true | some a => a.allClean fs) &&
-  (match p.roExc with | none => true | some a => a.allClean fs)
+  okClean fs p.exc && okClean fs p.roExc
 
-def okClean (fs : List Field) (o : Option Abs) : Bool :=
-  match o with | none => true | some a => a.allClean fs
 
 /-- **Read-only safety**: started on a read-only object, no way of ending leaves a field changed. -/
 def ReadonlySafe (fs : List Field) (sc : Stmt) : Bool :=
@@ -384,9 +384,7 @@ def ReadonlySafe (fs : List Field) (sc : Stmt) : Bool :=
 name the culprit fields of an undisciplined script -/
 def dirtyOnExc (fs : List Field) (sc : Stmt) : List Field :=
   let p := post sc (Abs.entry fs)
-  fs.filter fun f =>
-    (match p.exc with | none => false | some a => f ∉ a.clean) ||
-    (match p.roExc with | none => false | some a => f ∉ a.clean)
+  fs.filter fun f => (p.exc.any fun a => f ∉ a.clean) || (p.roExc.any fun a => f ∉ a.clean)
 
 /-- the read-only guard is the first thing the script does (syntactic) -/
 def guardedFirst : Stmt → Bool
